@@ -47,6 +47,12 @@ impl Prop for C02 {
             }
             return;
         }
+        if idx % 8 == 3 {
+            for _ in 0..6 {
+                text_differential(rng, out);
+            }
+            return;
+        }
         let mut gcfg = GenCfg::order_insensitive();
         if cfg.tier == Tier::Thorough {
             gcfg.max_stanzas = 8;
@@ -306,5 +312,68 @@ fn scan_differential(rng: &mut Rng, out: &mut Out) {
         (Real::Error(..), Real::Error(..)) => out.feat("scan:agree:error"),
         (Real::Graph(_), Real::Error(e, _)) => out.violation(&format!("C02:lazy-fails:{}", e.root), &format!("strict scan succeeds, lazy fails: {}", crate::util::trunc(&e.display, 300)), cj),
         (Real::Error(e, _), Real::Graph(_)) => out.violation(&format!("C02:lazy-succeeds:{}", e.root), &format!("strict scan fails, lazy succeeds: {}", crate::util::trunc(&e.display, 300)), cj),
+    }
+}
+
+/// Hand-shaped texts (the stanza families of C08 in both orders, the directed and seed texts of
+/// C05): whenever such a file loads, both modes must agree on graph versus error – in particular
+/// on the files the checker rejects today because a mutable variable reaches an eager position.
+fn text_differential(rng: &mut Rng, out: &mut Out) {
+    let (text, source, label): (String, String, String) = if rng.chance(1, 2) {
+        let (mut st, name) = super::c08::family(rng);
+        let mut header = String::new();
+        if st[0].starts_with("__HEADER__") {
+            header = st.remove(0)["__HEADER__".len()..].to_string();
+        }
+        if rng.chance(1, 2) {
+            st.reverse();
+        }
+        (format!("{}{}", header, st.join("\n")), "pass\nx = 1\n".to_string(), format!("family:{}", name))
+    } else {
+        let (name, t, s) = super::c05::differential_text(rng);
+        (t, s, format!("directed:{}", name))
+    };
+    let file = match exec::load(&text) {
+        Loaded::Ok(f) => f,
+        _ => {
+            out.eval();
+            out.feat("text:load_rejected");
+            return;
+        }
+    };
+    let tree = parse_python(&source);
+    let ti = TreeInfo::new(&tree);
+    let mut globals = std::collections::BTreeMap::new();
+    globals.insert("filename".to_string(), crate::model::value::MVal::str("src/pkg/__init__.py"));
+    let functions = stdlib();
+    let strict = exec::execute(&file, &tree, &source, &ti, &globals, &functions, &ExecOpts::new(false));
+    let lazy = exec::execute(&file, &tree, &source, &ti, &globals, &functions, &ExecOpts::new(true));
+    out.evals(2);
+    let mut cj = json!({"dsl": text, "source": source, "kind": label});
+    cj["strict"] = json!(strict.real.brief());
+    cj["lazy"] = json!(lazy.real.brief());
+    match (&strict.real, &lazy.real) {
+        (Real::Panic(p), _) | (_, Real::Panic(p)) => out.violation(&format!("C02:text-panic:{}", p.site_file()), &format!("{}: {}", p.location, p.message), cj),
+        (Real::Unreadable(s), _) | (_, Real::Unreadable(s)) => out.violation("C02:unreadable-graph", s, cj),
+        (Real::Graph(a), Real::Graph(b)) => match isomorphic(a, b, 200_000) {
+            Iso::Same => {
+                out.feat("text:agree:graph");
+                out.nontrivial(crate::util::mix(&[crate::util::hash_str(&text), crate::util::hash_str(&source)]));
+            }
+            Iso::Different(why) => out.violation("C02:graphs-differ", &format!("strict and lazy graphs are not isomorphic: {}", why), cj),
+            Iso::Unknown => out.inconclusive("isomorphism budget exhausted"),
+        },
+        (Real::Error(..), Real::Error(..)) => {
+            out.feat("text:agree:error");
+            out.nontrivial(crate::util::mix(&[crate::util::hash_str(&text), crate::util::hash_str(&source)]));
+        }
+        (Real::Graph(_), Real::Error(e, _)) => out.violation(&format!("C02:lazy-fails:{}", e.root), &format!("strict succeeds, lazy fails: {}", crate::util::trunc(&e.display, 300)), cj),
+        (Real::Error(e, _), Real::Graph(_)) => {
+            if ORDER_INDEPENDENT.contains(&e.root.as_str()) || e.root == "UndefinedCapture" {
+                out.violation(&format!("C02:lazy-succeeds:{}", e.root), &format!("strict fails for an order-independent reason, lazy succeeds: {}", crate::util::trunc(&e.display, 300)), cj);
+            } else {
+                out.feat(&format!("text:strict_only_error:{}", e.root));
+            }
+        }
     }
 }
